@@ -54,12 +54,48 @@ from pyvc.types import Computed, EnumT, Opt, NoneT, Lib  # noqa: E402
 ALG_STRS = ["es-256", "es-384", "es-521", "eddsa", "hash-eddsa"]
 FB = "suit_generator/suit_sign_script_base.py"
 
-ci = Contract(FC, "_import_signer", ["C09"])
-ci.model_only = True
-ci.modular_only_reason = "importlib-based plug-in loading; assumed to yield an instance of the shipped ncs/sign_script.Signer"
+# _import_signer: VERIFIED against a model of importlib (stubs_lib: spec_from_file_location / module_from_spec / exec_module): the module is loaded from
+# exactly the given script path, executed once, registered under a FRESH (uuid4) name, its suit_signer_factory is called once and what it returns is
+# what is returned; a script without the factory, or whose factory returns something that is no SuitEnvelopeSignerBase, is refused with ValueError.
+# What remains assumed: the file at that path is the shipped ncs/sign_script.py (then the factory yields its Signer) - the CALLER's choice of script.
+def _plugin_returns_signer(it, m, fname):
+    from pyvc.values import VObj
+    o = VObj(it.get_class("ncs/sign_script.py", "Signer"))
+    it.assumptions_used.add("the sign script handed to _import_signer is the shipped ncs/sign_script.py: its suit_signer_factory() returns a Signer")
+    return o
+
+
+def _import_signer_setup(it, env):
+    it.plugin_factory_result = _plugin_returns_signer
+
+
+def _import_signer_checks(it, ctx):
+    import z3
+    specs = [t for t in it.trace if t[0] == "import-spec"]
+    execs = [t for t in it.trace if t[0] == "import-exec"]
+    facts = [t for t in it.trace if t[0] == "plugin-factory"]
+    regs = [t for t in it.trace if t[0] == "sys.modules-store"]
+    draws = [t for t in it.trace if t[0] == "nondet" and t[1] == "uuid4"]
+    if ctx.outcome != "return":
+        return [("no_signer_without_a_loaded_script", z3.BoolVal(len(facts) <= 1))]
+    ok = len(specs) == 1 and len(execs) == 1 and len(facts) == 1 and len(regs) == 1
+    goals = [("script_loaded_executed_and_its_factory_called_exactly_once", z3.BoolVal(ok))]
+    if ok:
+        goals.append(("loaded_from_the_given_script_path", it.stubs.path_term(it, specs[0][2]) == it.stubs.path_term(it, ctx.arg("sign_script"))))
+        goals.append(("the_factory_is_suit_signer_factory_of_that_module", z3.BoolVal(facts[0][1] == "suit_signer_factory" and facts[0][2] is execs[0][2])))
+        goals.append(("registered_under_a_fresh_module_name", z3.BoolVal(len(draws) == 1 and regs[0][2] is execs[0][2])))
+        goals.append(("returns_what_the_factory_returned", z3.BoolVal(ctx.result is not None and getattr(ctx.result, "cls", None) is it.get_class("ncs/sign_script.py", "Signer"))))
+    return goals
+
+
+ci = Contract(FC, "_import_signer", ["C09", "C04"])
 ci.param("sign_script", Str())
+ci.variants = [("plug-in", {})]
+ci.setup = _import_signer_setup
+ci.check("loading", _import_signer_checks)
 ci.result(Obj("ncs/sign_script.py", "Signer"))
 ci.raises("ValueError")
+ci.raises("FileNotFoundError")
 
 CHILD_CFG = DictT(optional={"key-name": Str(), "key-id": Str(), "alg": OneOf(*ALG_STRS), "context": Str(), "omit-signing": Bool()})
 NODE_CFG = DictT(optional={"key-name": Str(), "key-id": Str(), "alg": OneOf("es-256", "hash-eddsa"), "context": Str(), "omit-signing": Bool(), "sign-script": Str(), "kms-script": Str(),
@@ -105,6 +141,7 @@ c.param("algorithm", EnumT(FB, "SuitSignAlgorithms"))
 c.param("context", Opt(Str()))
 # (no `modifies`: at the recursive call site the child object stays opaque - the parent's constructor reads nothing of it; a reader of a
 #  child attribute would be flagged, not silently served a made-up value)
+c.raises("FileNotFoundError")  # the sign script named by the configuration / environment does not exist (from _import_signer)
 c.raises("ValueError")
 c.max_paths = 6000
 
@@ -343,8 +380,11 @@ def _rs_init_at_call_site(it, c_, fi, args, kwargs):
     it.bind_args(fi, args, kwargs, env)
     it.assumptions_used.add("RecursiveSigner.__init__ / recursive_sign at the call site in cmd_sign.recursive_sign: their own contracts (construct or ValueError; "
                             "a tagged envelope or SignerError / ValueError)")
-    if it.choose(2, "recursive_signer_init_outcome") == 1:
+    k_ = it.choose(3, "recursive_signer_init_outcome")
+    if k_ == 1:
         it.raise_(ValueError, "configuration refused")
+    if k_ == 2:
+        it.raise_(FileNotFoundError, "sign script not found")
     it.trace.append(("call", "RecursiveSigner.__init__", dict(env.vars), NONE))
     return NONE
 
